@@ -9,7 +9,7 @@ pub fn prop() -> Prop {
     Prop {
         id: "C17",
         level: "model_checking",
-        rule: "streams of <=3 (thorough <=4) values over a 7-value core (incl. multi-line values and a multi-byte string) x 6 separator kinds (space, LF, CRLF, mixed run, touching, LF+indent), clean and with whitespace-delimited noise in one gap (7 tokens, three of them not valid UTF-8); deliveries: whole, 1-byte, greedy reads cut at EVERY set of <=2 offsets, Interrupted before every offset (singly and all at once), one file, FIFO with 3/7-byte writes; file partitions (file names not in sorted order; the same file twice): EVERY composition of the value sequence into 1..4 files and EVERY cut inside the text (a value cut by a file boundary); --only-objects-and-arrays on/off; plus 7 tokens (number, multi-byte string, literal, escapes, containers) placed so that they straddle byte 8192 and 16384 of the input at every split position, read byte by byte, from a file and in 1 KiB/4 KiB/8 KiB chunks; 300 and 1100 values one per line (LF, CRLF) and all on one line (indices, lines and columns beyond 255 / 65535) and spread over 10 files, one of them empty; non-trivial = >=2 values or a cut inside a value; distinct by construction; directory arguments: 6 layouts (two files, plain files around a directory, nested directories with an empty file, two directories, one file, noisy files) x --only-objects-and-arrays, checked per file because the order inside a directory is the file system's",
+        rule: "streams of <=3 (thorough <=4) values over a 7-value core (incl. multi-line values and a multi-byte string) x 7 separator kinds (space, LF, CRLF, mixed run, touching, LF+indent, CR alone - which is white space but no line break), clean and with whitespace-delimited noise in one gap (7 tokens, three of them not valid UTF-8); deliveries: whole, 1-byte, greedy reads cut at EVERY set of <=2 offsets, Interrupted before every offset (singly and all at once), one file, FIFO with 3/7-byte writes; file partitions (file names not in sorted order; the same file twice): EVERY composition of the value sequence into 1..4 files and EVERY cut inside the text (a value cut by a file boundary); --only-objects-and-arrays on/off; plus 7 tokens (number, multi-byte string, literal, escapes, containers) placed so that they straddle byte 8192 and 16384 of the input at every split position, read byte by byte, from a file and in 1 KiB/4 KiB/8 KiB chunks; 300 and 1100 values one per line (LF, CRLF) and all on one line (indices, lines and columns beyond 255 / 65535) and spread over 10 files, one of them empty; non-trivial = >=2 values or a cut inside a value; distinct by construction; directory arguments: 6 layouts (two files, plain files around a directory, nested directories with an empty file, two directories, one file, noisy files) x --only-objects-and-arrays, checked per file because the order inside a directory is the file system's",
         explanation: "(a) every delivery must give the byte-identical observation; (b) out(f1..fn) = out(f1)...out(fn) with all per-file selectors; (c) the seven &-selectors are compared with a location model on the input text: &index ordinal of processed values, &index-in-file per file, &file-name the path, [start,end) as byte offsets must contain the value's span from the strict reference reader, consecutive ranges contiguous on clean streams, lines counted by LF only",
         assumptions: COMMON_ASSUMPTIONS.to_vec(),
         guards: vec!["line-feed-inside-a-string", "noise-that-is-not-valid-utf8", "directory-argument", "same-file-twice", "index-line-column-beyond-255", "token-straddles-a-buffer-boundary", "touching-values", "multi-line-value", "cut-inside-value", "greedy-chunking", "file-boundary-inside-value", "ooa-skips-scalar", "crlf", "fifo"],
@@ -21,7 +21,7 @@ pub fn prop() -> Prop {
 }
 
 const CORE: [&str; 7] = ["1203", "\"a\u{e9}\"", "[1,\n2]", "{\"k\":\n\n \"v\"}", "true", "[]", "-2.5e1"];
-const SEPS: [(&str, &str); 6] = [("space", " "), ("lf", "\n"), ("crlf", "\r\n"), ("run", "  \n\t"), ("touch", ""), ("lf-indent", "\n  ")];
+const SEPS: [(&str, &str); 7] = [("space", " "), ("lf", "\n"), ("crlf", "\r\n"), ("run", "  \n\t"), ("touch", ""), ("lf-indent", "\n  "), ("cr-alone", "\r")];
 /// noise tokens; three of them are not valid UTF-8 (a stray byte, a string holding one, a lead byte without its tail)
 const NOISE: [&[u8]; 7] = [b"}", b"x:", b",\n]", b"\xef\xbb\xbf", b"\xff", b"\"a\xffb\"", b"\xc3"];
 
